@@ -20,6 +20,12 @@ func extraMode(mode string, n int, r *rand.Rand) bool {
 		for i := 0; i < n; i++ {
 			emit(genE2E11(r))
 		}
+	case "seq12":
+		for i := 0; i < n; i++ {
+			for _, c := range genSeq12(r) {
+				emit(c)
+			}
+		}
 	case "replay13":
 		for _, x := range replay13() {
 			emit(x)
